@@ -121,8 +121,8 @@ func (c *ctx) convFacts() *leanFile {
 
 	// modFunc = func(..) { return numericExpr(t, m, n, func(a, b float64) float64 { return float64(int(a) % int(b)) }) }
 	modInt := false
-	if vs := c.varDecl("modFunc"); vs != nil && len(vs.Values) == 1 {
-		ast.Inspect(vs.Values[0], func(n ast.Node) bool {
+	if body := c.funcNode("modFunc"); body != nil {
+		ast.Inspect(body, func(n ast.Node) bool {
 			fn, call, ok := funcCall2(n)
 			if !ok || fn != "numericExpr" || len(call.Args) != 4 {
 				return true
